@@ -143,6 +143,17 @@ func genInc(t *rapid.T, o incOpts) Inc {
 	// a lagging audio track falls behind the video track by more than lal's backward threshold: every
 	// alternation between the tracks then forces a split
 	laggingAudio := !o.short && rapid.IntRange(0, 11).Draw(t, "laggingAudio") == 0
+	// the audio track may run ahead of the video track (audio of the next few hundred milliseconds is published,
+	// and sits in lal's AAC cache, before the video frame that opens a segment arrives)
+	audioLead := uint32(0)
+	if !o.short && !laggingAudio {
+		audioLead = rapid.SampledFrom([]uint32{0, 0, 0, 60, 140, 250}).Draw(t, "audioLead")
+	}
+	// the first key frame arrives late: the leading groups hold no key frame
+	lateKeyGroups := 0
+	if !o.short && cd.Video != "" && rapid.IntRange(0, 6).Draw(t, "lateFirstKey") == 0 {
+		lateKeyGroups = rapid.IntRange(2, 7).Draw(t, "lateKeyGroups")
+	}
 	if o.short {
 		keyMissingPct, jumpPct = 0, 0
 	}
@@ -180,6 +191,9 @@ func genInc(t *rapid.T, o incOpts) Inc {
 		if cd.Video != "" && g == 0 && !o.short && rapid.IntRange(0, 11).Draw(t, "startsWithoutKey") == 0 {
 			key = false
 		}
+		if g < lateKeyGroups {
+			key = false
+		}
 		for f := 0; f < n; f++ {
 			if cd.Video != "" {
 				items = append(items, videoItem(t, cd, ts, key && f == 0, &serial))
@@ -188,7 +202,7 @@ func genInc(t *rapid.T, o incOpts) Inc {
 					if !laggingAudio && aTs+2*aStep < ts {
 						aTs = ts - 2*aStep // the audio track stays close to the video track
 					}
-					for k := 0; k < 3 && aTs <= ts; k++ {
+					for k := 0; k < 3 && aTs <= ts+audioLead; k++ {
 						items = append(items, audioItem(t, aTs, &serial))
 						frames++
 						aTs += aStep
@@ -219,6 +233,12 @@ func genInc(t *rapid.T, o incOpts) Inc {
 			}
 			if follow {
 				aTs = ts
+				if cd.Video != "" && cd.Audio != "" && rapid.Bool().Draw(t, "audioFirstAfterJump") {
+					// the first message on the new time base is an audio frame
+					items = append(items, audioItem(t, aTs, &serial))
+					frames++
+					aTs += aStep
+				}
 			}
 		}
 	}
@@ -234,6 +254,19 @@ func genCase(t *rapid.T) Case {
 	c.FragMs = rapid.OneOf(rapid.SampledFrom([]int{1000, 100, 500, 200, 3000, 2000, 100}), rapid.IntRange(100, 3000)).Draw(t, "fragMs")
 	c.FragNum = rapid.IntRange(1, 6).Draw(t, "fragNum")
 	c.DelThr = rapid.IntRange(0, 4).Draw(t, "delThr")
+	// lal imposes no limits on these settings (delete_threshold even defaults to fragment_num): beyond the
+	// documented ranges
+	switch rapid.IntRange(0, 15).Draw(t, "wideConfig") {
+	case 0:
+		c.FragMs = rapid.OneOf(rapid.IntRange(3001, 12000), rapid.IntRange(20, 99)).Draw(t, "fragMsWide")
+	case 1:
+		c.FragNum = rapid.IntRange(7, 12).Draw(t, "fragNumWide")
+	case 2:
+		c.DelThr = rapid.IntRange(5, 12).Draw(t, "delThrWide")
+	case 3:
+		c.FragNum = rapid.IntRange(5, 12).Draw(t, "fragNumWide2")
+		c.DelThr = rapid.IntRange(5, 12).Draw(t, "delThrWide2")
+	}
 	c.Cleanup = rapid.IntRange(0, 2).Draw(t, "cleanup")
 	c.ChunkSize = rapid.SampledFrom([]int{4096, 4096, 128, 60000}).Draw(t, "chunk")
 	maxFrames := 110
@@ -247,8 +280,10 @@ func genCase(t *rapid.T) Case {
 		n := rapid.SampledFrom([]int{2, 2, 2, 3}).Draw(t, "nincs")
 		for i := 0; i < n; i++ {
 			o := incOpts{fragMs: c.FragMs, maxFrames: maxFrames / n * 2, serial: uint32(i+1) * 100000}
-			if i < n-1 && rapid.IntRange(0, 7).Draw(t, "shortPredecessor") != 0 {
-				// a predecessor that cannot advance the media sequence: at most fragment_num key frames
+			if i < n-1 && rapid.IntRange(0, 2).Draw(t, "shortPredecessor") == 0 {
+				// a predecessor that cannot advance the media sequence: at most fragment_num key frames (the others
+				// run into the known finding H2/media-sequence-restarts-on-republish, which the oracle reports
+				// with the lowest priority)
 				o.short, o.maxKeys = true, c.FragNum
 			}
 			c.Incs = append(c.Incs, genInc(t, o))
@@ -263,9 +298,9 @@ func genCase(t *rapid.T) Case {
 		kind := rapid.SampledFrom([]string{"during", "before", "after", "during"}).Draw(t, "raceKind")
 		for i := 0; i < 2; i++ {
 			o := incOpts{fragMs: c.FragMs, maxFrames: 60, serial: uint32(i+1) * 100000}
-			if i == 0 && kind != "before" {
-				// the playlist survives until the successor starts: keep the predecessor from advancing the
-				// media sequence (known finding), the cleanup is scheduled by its leave in any case
+			if i == 0 && kind != "before" && rapid.Bool().Draw(t, "raceShortPredecessor") {
+				// the playlist survives until the successor starts: half of the predecessors cannot advance the
+				// media sequence (known finding); the cleanup is scheduled by the leave in any case
 				o.short, o.maxKeys = true, c.FragNum
 			}
 			c.Incs = append(c.Incs, genInc(t, o))
@@ -285,7 +320,7 @@ func genCase(t *rapid.T) Case {
 }
 
 // ---------------------------------------------------------------------------
-// static analysis of a case (classification, exclusion of the known finding)
+// static analysis of a case (classification)
 
 type incFacts struct {
 	diverge    bool // two frames adjacent in publish order lie more than 900 ms apart on lal's (per-track rebased) timeline
@@ -385,53 +420,65 @@ func facts(in Inc, fragMs int) incFacts {
 	return f
 }
 
-// maxCloses is an upper bound on the number of segments the incarnation can
-// close: every key frame (audio-only or audio-before-header: every audio frame)
-// may open one, every jump and every stretch of 10 x fragment duration may force
-// two more, and the teardown closes the last one.
-func maxCloses(in Inc, fragMs int) int {
-	f := facts(in, fragMs)
-	n := f.keys // every segment that is opened is closed exactly once (the last one by the teardown)
-	if f.audioFirst {
-		n += f.media
+// cachedAudioShapes labels the three ways in which lal's AAC cache can hold audio
+// that lies more than 10 x fragment_duration after the start of the previous
+// segment at the instant a video frame opens a new segment (the re-entrant
+// FlushAudio -> FeedMpegts path inside openFragment then sees a frame that
+// qualifies for a forced split).
+func cachedAudioShapes(in Inc, fragMs int) []string {
+	if in.Codecs.Video == "" || in.Codecs.Audio != "aac" {
+		return nil
 	}
-	n += 2 * (f.jumpsFwd + f.jumpsBack)
-	if f.longRun || f.diverge || f.jumpsBack+f.jumpsFwd > 0 {
-		n += f.media // diverging tracks / long runs can force a split per frame
-	}
-	return n
-}
-
-// playlistSurvivesGap reports whether playlist.m3u8 written by incarnation i can
-// still exist when incarnation i+1 starts.
-func playlistSurvivesGap(c Case, i int) bool {
-	if c.Cleanup == 0 {
-		return true
-	}
-	gap := 0
-	if i < len(c.GapMs) {
-		gap = c.GapMs[i]
-	}
-	return gap < c.cleanupDelayMs()+100
-}
-
-// excludeKnown steers the search away from the recorded known finding
-// H2/media-sequence-restarts-on-republish: a re-published stream whose
-// predecessor may have advanced the media sequence (closed more than
-// fragment_num segments) while the playlist file survives until the successor
-// writes its first playlist.  (The oracle also reports that finding with the
-// lowest priority, so every other rule is still judged in such a history when it
-// is replayed.)
-func excludeKnown(c Case) string {
-	for i := 0; i+1 < len(c.Incs); i++ {
-		if !playlistSurvivesGap(c, i) {
-			continue
+	D := int64(fragMs)
+	var out []string
+	add := func(l string) {
+		for _, x := range out {
+			if x == l {
+				return
+			}
 		}
-		if maxCloses(c.Incs[i], c.FragMs) > c.FragNum {
-			return "known:" + sigSeqRestart
+		out = append(out, l)
+	}
+	var firstMedia, lastKey, lastVideo, lastMedia int64 = -1, -1, -1, -1
+	var pendingAudio int64 = -1 // newest audio frame published since the last video frame
+	jumpAudio := int64(-1)      // an audio frame that came first after a forward jump of both tracks
+	seenKey := false
+	for _, it := range in.Items {
+		ts := int64(it.Ts)
+		switch it.Kind {
+		case "audio":
+			if firstMedia < 0 {
+				firstMedia = ts
+			}
+			if lastMedia >= 0 && ts-lastMedia > 10*D && lastVideo >= 0 && ts-lastVideo > 10*D {
+				jumpAudio = ts
+			}
+			pendingAudio = ts
+			lastMedia = ts
+		case "video":
+			if firstMedia < 0 {
+				firstMedia = ts
+			}
+			if jumpAudio >= 0 && ts >= jumpAudio && ts-jumpAudio < 300 {
+				add("cached-audio:audio-first-after-forward-jump")
+			}
+			jumpAudio = -1
+			if it.Key && !seenKey {
+				seenKey = true
+				if pendingAudio >= 0 && pendingAudio-firstMedia > 10*D && ts-pendingAudio < 300 {
+					add("cached-audio:first-key-frame-later-than-10-fragments")
+				}
+			}
+			if it.Key {
+				lastKey = ts
+			} else if lastKey >= 0 && ts-lastKey > 10*D && pendingAudio >= ts && pendingAudio-ts < 300 {
+				add("cached-audio:long-gop-with-audio-ahead")
+			}
+			pendingAudio = -1
+			lastVideo, lastMedia = ts, ts
 		}
 	}
-	return ""
+	return out
 }
 
 func shape(cd gen.Codecs) string {
@@ -449,7 +496,20 @@ func classify(c Case) (bool, []string) {
 		fmt.Sprintf("cleanup:%d", c.Cleanup), fmt.Sprintf("fragment_num:%d", c.FragNum), fmt.Sprintf("delete_threshold:%d", c.DelThr),
 		fmt.Sprintf("incarnations:%d", len(c.Incs)), "class:" + c.Class,
 	}
+	if c.FragNum > 6 {
+		labels[1] = "fragment_num:7-12"
+	}
+	if c.DelThr > 4 {
+		labels[2] = "delete_threshold:5-12"
+	}
+	if c.FragNum+c.DelThr+1 > 11 {
+		labels = append(labels, "ring-larger-than-documented-maximum")
+	}
 	switch {
+	case c.FragMs < 100:
+		labels = append(labels, "fragment_ms:20-99")
+	case c.FragMs > 3000:
+		labels = append(labels, "fragment_ms:3001-12000")
 	case c.FragMs <= 150:
 		labels = append(labels, "fragment_ms:100-150")
 	case c.FragMs < 1000:
@@ -496,6 +556,10 @@ func classify(c Case) (bool, []string) {
 		}
 		if in.HoldMs > 0 {
 			labels = append(labels, "race:cleanup-fires-while-successor-live")
+		}
+		labels = append(labels, cachedAudioShapes(in, c.FragMs)...)
+		if i > 0 && facts(c.Incs[i-1], c.FragMs).spacedKeys > c.FragNum+1 {
+			labels = append(labels, "successor-of-a-predecessor-that-advanced-the-sequence")
 		}
 		if wrap || f.jumpsFwd+f.jumpsBack > 0 || f.longRun || f.diverge {
 			nt = true
